@@ -392,7 +392,7 @@ func derivedSet.InheritFrom
 
 func derivedSet.InheritFrom$1
   instantiate ElementType: int
-  requires s != nil && *s != nil && sourceElements != nil && *sourceElements != nil && appliedMutations != nil
+  requires s != nil && *s != nil && (*s).set != nil && (*s).set.readableSet != nil && sourceElements != nil && *sourceElements != nil && appliedMutations != nil
   modifies everything
   ghost before call Set.Apply: assert arg0 == *sourceElements && arg1 == appliedMutations
   ghost after call Set.Apply: lastapplied = result
